@@ -30,6 +30,7 @@ Section Oracles.
     is_assignment w = false -> mem_str w WRAPPER_COMMANDS = true -> mcmd c (w :: rest) = None ->
     (str_eqb w $"command" && mem_str (nth 0 rest []) COMMAND_V_FLAGS) = false ->
     skip_wrapper_args w rest = inner -> inner <> [] ->
+    (negb (str_eqb w $"time") && is_assignment (hd [] inner)) = false ->
     ladder c (w :: rest) = ladder c inner.
   Proof. exact (wrapper_transparent mcmd handler mredir astr). Qed.
 End Oracles.
